@@ -810,6 +810,7 @@ class Gen:
             ("data ((bMat(iCnt, jIdx), iCnt = 1, 6, 3), jIdx = 2, 4, 2) /4*2.5/", "data_implied_do"),
             ("data ((bMat(iCnt, jIdx), iCnt = 1, 2), jIdx = 1, 3) /6*1.5/", "data_implied_do"),
             ("data kk, mVal /-1, +2/", "data_signed"),
+            ("data nMax, tmpR /-1_8, +2.5_wp/", "data_signed"),
             ("data zz /-1.5e0/, wRk /+.5/", "data_signed"),
             ("real, pointer :: pNul => null()", "null_init"),
             ("save /cmnBlk/, svQ", "saved_entity"),
@@ -825,7 +826,9 @@ class Gen:
             extras += [("protected :: nShared", "protected_stmt")]
         if f2008_decl and self.std == "f2008":
             extras += [("real, contiguous, pointer :: cgP(:)", "contiguous"),
-                       ("integer, codimension[*] :: coI", "codimension")]
+                       ("integer, codimension[*] :: coI", "codimension"),
+                       ("real, codimension[2, 0:1, *] :: coR(3)", "codimension"),
+                       ("real, allocatable, codimension[:, :] :: coA(:)", "codimension")]
         self.r.shuffle(extras)
         for t, k in extras[: self.r.randrange(2, 7)]:
             if k is None:
@@ -856,6 +859,7 @@ class Gen:
                                "format (i5, 2x, f8.3, /, t10, a, :, 1p, e12.4, sp, i3, ss, i4)",
                                "format (bn, i4, bz, i4, tl2, tr3, 3(1x, i2), '(lit)', //, a10)",
                                "format ('it''s', 1x, es12.4e2, en10.3, g12.5, l2, b8.4, o6, z8, d10.3)",
+                               "format (e10.3e2, g12.5e3, 2p, f8.2, a, i0, f0.3, 1x, i5.3)",
                                "format (2(1x, 3(i2, ','), a), dc, f6.2, dp, ru, f6.2, rz, f5.1)"]),
                       label=900, kind="format")
         if self.p(0.12):
